@@ -539,7 +539,7 @@ impl Graph {
         for state in graph.iter_states() {
             let state_data = graph.get_state(state);
             if let Some(leaf_id) = state_data.state_type.accept {
-                if state_data.backward.iter().all(|&back_state| {
+                if state_data.backward.iter().any(|&back_state| {
                     graph.get_state(back_state).state_type.early == Some(leaf_id)
                 }) {
                     graph.states[state.0].state_type.accept = None;
